@@ -377,7 +377,7 @@ static void render(const op_t *op, char *buf, vt_rng_t *rng, int use_libquote)
 
 /* ----------------------------------------------------------- projection */
 
-static void project(const vnaproperty_t *node, int depth)
+static void project_rec(const vnaproperty_t *node, int depth)
 {
     int t;
 
@@ -429,7 +429,7 @@ static void project(const vnaproperty_t *node, int depth)
 		if (sub == NULL && e != 0)
 		    vt_put("{\"t\":\"ERRsub\"}");
 		else
-		    project(sub, depth + 1);
+		    project_rec(sub, depth + 1);
 		vt_put("}");
 	    }
 	    vt_put("]");
@@ -455,7 +455,7 @@ static void project(const vnaproperty_t *node, int depth)
 		if (sub == NULL && e != 0)
 		    vt_put("{\"t\":\"ERRsub\"}");
 		else
-		    project(sub, depth + 1);
+		    project_rec(sub, depth + 1);
 	    }
 	    vt_put("]}");
 	}
@@ -464,6 +464,15 @@ static void project(const vnaproperty_t *node, int depth)
 	vt_put("{\"t\":\"ERRtype\"}");
 	return;
     }
+}
+
+/* observation only: allocations made by the getters are neither counted
+ * nor eligible for fault injection */
+static void project(const vnaproperty_t *node, int depth)
+{
+    ++vt_pause;
+    project_rec(node, depth);
+    --vt_pause;
 }
 
 /* ----------------------------------------------------------- execution */
@@ -494,9 +503,13 @@ static void exec_op(vnaproperty_t **rootp, const op_t *op, vt_rng_t *rng,
 {
     char desc[1024];
     int ok = 0, e = 0;
+    long failed0;
 
+    ++vt_pause;			/* rendering may call vnaproperty_quote_key */
     if (op->kind != K_COPY)
 	render(op, desc, rng, use_libquote);
+    --vt_pause;
+    failed0 = vt_failed;
     vt_put("{\"e\":\"%s\",", kind_name[op->kind]);
     if (op->kind != K_COPY) {
 	put_path(op);
@@ -610,27 +623,43 @@ static void exec_op(vnaproperty_t **rootp, const op_t *op, vt_rng_t *rng,
 	    int rv;
 
 	    /* destination first holds unrelated content that must vanish */
+	    ++vt_pause;
 	    if (rng != NULL && vt_below(rng, 2) == 0)
 		(void)LIB(vnaproperty_set(&copy, "junk[1].deep=1"));
+	    --vt_pause;
 	    rv = LIB(vnaproperty_copy(&copy, *rootp));
 	    e = errno;
 	    ok = rv == 0;
 	    vt_put("\"val\":");
 	    project(copy, 0);
 	    vt_put(",");
+	    ++vt_pause;
 	    (void)LIB(vnaproperty_delete(&copy, "."));
+	    --vt_pause;
 	}
 	break;
     }
-    vt_put("\"ok\":%d,\"err\":\"%s\",\"obs\":", ok, vt_errname(e));
-    project(*rootp, 0);
-    vt_put("}");
-    vt_end_line();
+    {
+	int faulted = vt_failed > failed0;
+
+	vt_put("\"fault\":%ld,\"ok\":%d,\"err\":\"%s\",\"obs\":",
+		faulted ? vt_fail_at : 0L, ok, vt_errname(e));
+	project(*rootp, 0);
+	vt_put("}");
+	vt_end_line();
+	/* C12: a call that failed because of the injected fault is repeated
+	 * (the fault is one-shot); its result must be that of a fault-free
+	 * call from the state before the fault */
+	if (faulted && !ok)
+	    exec_op(rootp, op, rng, use_libquote);
+    }
 }
 
 static void end_case(vnaproperty_t **rootp)
 {
+    ++vt_pause;
     (void)LIB(vnaproperty_delete(rootp, "."));
+    --vt_pause;
     vt_put("{\"e\":\"End\",\"live\":%ld,\"rootNull\":%d}", vt_alloc_live,
 	    *rootp == NULL);
     vt_end_line();
@@ -784,6 +813,71 @@ int main(int argc, char **argv)
 		exec_op(&root, &op, &rng, libq);
 	    }
 	    end_case(&root);
+	}
+	return 0;
+    }
+    if (argc >= 3 && (strcmp(argv[1], "fault") == 0 ||
+		strcmp(argv[1], "faultcount") == 0)) {
+	/* fault SCRIPT FROM TO: run the script once per k with the k-th
+	 * in-library allocation failed; faultcount SCRIPT prints K.
+	 * SCRIPT: 0..N_SCRIPTS-1 fixed, >= 100: random history seed */
+	static const char *scripts[][40] = {
+	    { "S k0 =v0", "S k1.k0 =v1", "S k2[2] =v0", "S k2[0+] =v1", "K .",
+	      "N k2", "G k1.k0", "B k1", "T k2[0]", "D k2[1]", "D k1", "C",
+	      "U k3{}", "U k4[]", "S k0. =v1", "D k0.", "S [0] =v0", "D .",
+	      NULL },
+	    { "S k0 =v0", "S k1 =v0", "S k2 =v0", "S k3 =v0", "S k4 =v0",
+	      "S k5 =v0", "S k6 =v0", "S k7 =v0", "S k8 =v0", "S k9 =v0",
+	      "S k10 =v0", "S k11 =v0", "S k12 =v0", "S k13 =v0", "S k14 =v0",
+	      "S k15 =v0", "S k16 =v0", "S k17 =v0", "S k18 =v0", "S k19 =v0",
+	      "S k20 =v0", "S k21 =v0", "K .", "C", "D k5", "S k5.k0[9] =v1",
+	      "S k5.k0[3+] =v2", "S k5.k0[+] =v3", "C", "D k5.k0[0]", NULL },
+	    { "S [0][0][0] =v0", "S [0][0][1].k0 =v1", "U [1]{}", "U [2][]",
+	      "S [1].k0.k1.k2 =v5", "C", "B [0][0]", "S [0] #", "S . =v0",
+	      "S k0 =v1", NULL },
+	};
+	int nscripts = (int)(sizeof(scripts) / sizeof(scripts[0]));
+	int script = atoi(argv[2]);
+	int counting = strcmp(argv[1], "faultcount") == 0;
+	long from = counting ? 0 : atol(argv[3]);
+	long to = counting ? 1 : atol(argv[4]);
+
+	for (long k = from; k < to; ++k) {
+	    vnaproperty_t *root = NULL;
+
+	    vt_alloc_count = 0;
+	    vt_fail_at = counting ? 0 : k;
+	    if (!counting) {
+		vt_put("{\"e\":\"Reset\",\"case\":\"fault:%d:%ld\"}", script, k);
+		vt_end_line();
+	    } else {
+		vt_open("/dev/null");
+	    }
+	    if (script < nscripts) {
+		for (int i = 0; scripts[script][i] != NULL; ++i) {
+		    op_t op;
+
+		    if (parse_op(scripts[script][i], &op) != 0) {
+			fprintf(stderr, "bad script op %s\n", scripts[script][i]);
+			return 3;
+		    }
+		    exec_op(&root, &op, NULL, i % 2);
+		}
+	    } else {
+		vt_rng_t rng;
+
+		vt_seed(&rng, (uint64_t)script);
+		for (int i = 0; i < 40; ++i) {
+		    op_t op;
+
+		    random_op(&rng, &op, 4, 4);
+		    exec_op(&root, &op, NULL, i % 2);
+		}
+	    }
+	    vt_fail_at = 0;
+	    end_case(&root);
+	    if (counting)
+		printf("%ld\n", vt_alloc_count);
 	}
 	return 0;
     }
